@@ -9,6 +9,11 @@ CHECKS = {
    text="Thousands of short seeded histories of all mutating operations (nine selector kinds, four offset alignments, relative offsets, range-compressed complex selectors, strict/non-strict removals, protect_text) are applied to the real store; after every operation every lookup named in the property is compared with a documentation-derived shadow model that answers by full scan, and the hooked dump is checked for stale/missing/duplicate/unsorted index entries. Held only on the histories observed.",
    note="Trusted: harness/src/model.rs (written from the documentation), the dump hook (read-only, add-only). Not generated: requests whose outcome the documentation leaves open, an annotation naming the same item twice, DataKey/AnnotationData selectors inside complex selectors.",
    ref="5/C01"),
+ "C02": dict(
+   technique="runtime monitoring: removal-biased seeded histories (by id, by handle, via DELETE queries; strict/non-strict) with return-value oracle, shadow-model cascade (least fixed point) vs full observation and hooked index dump after every removal, plus serialise/query-everything smoke oracles",
+   text="Every removal request generated on a store that the model knows must succeed and remove exactly the model's cascade; afterwards the whole store (items, handles, every reverse lookup, the dumped indices incl. dangling forward references) must equal the model, to_json_string must succeed and a SELECT over all annotations must yield exactly the survivors. Held on the histories observed.",
+   note="Trusted: the cascade rules of DESIGN.md appendix A; removals of unknown items are not judged; DELETE queries only by plain id.",
+   ref="5/C02"),
  "C13": dict(
    technique="runtime oracle monitor: exhaustive enumeration of range pairs / small set pairs against interval-arithmetic reference + algebraic laws, panics caught per call",
    text="Every ordered pair of ranges of several 7-codepoint texts (incl. zero-width, whitespace layouts) and every ordered pair of sets of size<=2 over a 10-range universe is run through the real test/test_set entry points for all 92 operator x modifier variants; each answer is compared with an interval-arithmetic reference and the converse/symmetry/implication/complement laws. Exhaustive within that bound, nothing beyond it.",
